@@ -82,10 +82,16 @@ def stage_segy(d, k, shape, rate, bs, mode, fmt=5, il=(1, 1), xl=(1, 1), seed=0,
     return p, T
 
 
-def stage_2d(d, k, shape, rate, bs, seed=0):
+def stage_2d(d, k, shape, rate, bs, seed=0, numbering=None):
     data = inputs.cube(shape, seed + k)
     sgy = os.path.join(d, f'l{k}.sgy')
     hdrs = [{segyio.TraceField.CDP: t + 1, segyio.TraceField.CDP_X: 10 * t} for t in range(shape[0])]
+    if numbering == 'il':           # a single inline with crossline numbers / a single crossline with inline numbers
+        for t, h in enumerate(hdrs):
+            h[segyio.TraceField.INLINE_3D], h[segyio.TraceField.CROSSLINE_3D] = 7, 100 + 2 * t
+    elif numbering == 'xl':
+        for t, h in enumerate(hdrs):
+            h[segyio.TraceField.INLINE_3D], h[segyio.TraceField.CROSSLINE_3D] = 50 + t, 9
     inputs.write_segy_traces(sgy, data, 8 + np.arange(shape[1]) * 4.0, hdrs)
     p = os.path.join(d, f'l{k}.sgz')
     writers.segy_to_sgz(sgy, p, writers.rate_arg(rate), bs)
@@ -217,6 +223,8 @@ def chains(run):
     C.append(('segy crossline-sorted', [segy((6, 7, 20), 16, None, 'thorough', il=(10, 2), xl=(100, 5), sorting='xl')]))
     for shape, rate, bs in (((128, 20), 8, (1, 4, -1)), ((129, 9), 4, None), ((9, 70), 16, (1, 16, -1)), ((2, 2), 8, (1, 4, -1))):
         C.append((f'2d{shape}', [lambda d, k, pp, pT, shape=shape, rate=rate, bs=bs: stage_2d(d, k, shape, rate, bs, s)]))
+    for numbering, shape in (('il', (37, 20)), ('xl', (16, 9))):
+        C.append((f'2d{shape} numbered {numbering}', [lambda d, k, pp, pT, shape=shape, numbering=numbering: stage_2d(d, k, shape, 8, None, s, numbering)]))
     for grid, holes in (((4, 5), {(0, 0)}), ((8, 16), {(7, 15), (3, 3)}), ((3, 3), {(1, 1), (0, 2)})):
         C.append((f'irregular{grid}', [lambda d, k, pp, pT, grid=grid, holes=holes: stage_irregular(d, k, grid, holes, 16, seed=s)]))
     # compositions
